@@ -1,5 +1,8 @@
 import JSight.CheckExample
 import JSight.CheckExampleConv
+import JSight.CheckerComplete
+import JSight.CheckerLayout
+import JSight.CheckerLit
 /-!
 # C04 — Check accepts a schema only if its own EXAMPLE obeys its rules
 
@@ -30,5 +33,213 @@ example : VP.checked (fun (l : Nat) (d : Nat) => l == d) (fun l => if l == 4 the
 /-! Non-vacuity: a schema that satisfies the hypothesis -/
 example : VP.checked (fun (l : Nat) (d : Nat) => l == d) id
     (.obj [("a", true, .lit 1), ("b", false, .arr [.lit 2, .obj [("c", true, .lit 3)]])]) = true := by decide +kernel
+
+/-! ## The checker itself (`CK.checkSchema`, `JSight/Checker.lean`): traversal, first error, positions, item counts
+
+`CK.checkSchema` transliterates `checker.CheckRootSchema` over the compiled schema (every node with its basis lexeme: file
+and byte offset) and returns `ok` or `err code file pos type`. It is tied to the real checker by `vh c04-model` (the hook
+prints what the real checker reads and runs it; 0 differences in code, file, offset and named type, also with several
+simultaneous corruptions). `o : RulesF.Oracles` are Go's `regexp`, `net/mail`, `net/url`, `time` (parameters). -/
+
+open CK in
+/-- SOUND: whenever the checker accepts a schema whose EXAMPLE is plain JSON (no type shortcut in value or key position, no
+allOf; keys unique), the validator model accepts the EXAMPLE — literal nodes with ALL their rules, `{type: "@t"}` and `or`
+sets included: a token is admitted when `ValidateLiteralValue` of one alternative of the node returns -/
+theorem C04_checker_sound (o : RulesF.Oracles) (s : Schema) (r : Node) (hr : s.root = some r) (hp : plain r = true)
+    (hn : VP.nodupAll (toVP r) = true) (h : checkSchema o s = .ok) :
+    VP.validate (literalAccepts o s.env) (toVP r) (VP.exampleOf (fun i => i.lex.value) (toVP r)) = true :=
+  CK.checker_sound o s r hr hp hn h
+
+open CK in
+/-- FIRST (traversal order): `CheckRootSchema` reports the own error of the first offending node in the order "nodes of the
+root in source (pre-)order, then the nodes of every type in table order, each in source order" (`firstErr`: a
+`findSome?` over that list); `ok` when no node offends. Source order and traversal order differ only in that: the root
+comes before the types whatever was added first, and the types come in the order of `typeGoesFirst` (`Schema.visit`): by
+name, the unnamed ones (or-shortcut nodes, or rule-set members) first and among themselves by file name and position. -/
+theorem C04_checker_first (o : RulesF.Oracles) (s : Schema) : checkSchema o s = firstErr o s :=
+  CK.checkSchema_eq_firstErr o s
+
+open CK in
+/-- POSITION: the own error of a node is a DocumentError at the node's basis lexeme — file and `Begin()`: the first byte of a
+literal, the `[` / `{` of a container — except the two key-shortcut errors of an object (1302 / 1304), which sit at the
+key's lexeme; (`crash` = the model ran out of fuel, excluded by `C04_checker_no_crash`) -/
+theorem C04_checker_position (o : RulesF.Oracles) (env : Env) (hd : Hd) (p : Panic) (h : nodeErr o env hd = some p) :
+    (∃ c, p = .doc c hd.info.lex.file hd.info.lex.begin) ∨
+    (hd.info.nk = .obj ∧ ∃ k ∈ hd.info.keys, k.shortcut = true ∧ ∃ c, (c = 1302 ∨ c = 1304) ∧ p = .doc c k.lex.file k.lex.begin) ∨
+    (∃ w, p = .crash w) :=
+  CK.nodeErr_pos o env hd p h
+
+open CK in
+/-- a violated rule — no alternative of a literal admits its own token; the EXAMPLE's item count below `minItems` / above
+`maxItems` — makes the node's own check fail; and when the node's structural checks pass, a failing own check of a literal
+or an array IS a violated rule -/
+theorem C04_violation_iff_own_check (o : RulesF.Oracles) (env : Env) (h : Hd)
+    (hl : h.info.nk = .lit → h.info.lex.ty = .litEnd) (hs : structOK env h = true)
+    (hnk : h.info.nk = .lit ∨ h.info.nk = .arr) :
+    violates o env h = true ↔ nodeErr o env h ≠ none := by
+  constructor
+  · exact CK.nodeErr_of_violates o env h hl
+  · intro he
+    unfold structOK at hs
+    simp only [Bool.and_eq_true, Option.isNone_iff_eq_none] at hs
+    refine CK.violates_of_nodeErr o env h hl hs.1.1 hs.1.2 ?_ hnk he
+    intro ha
+    have := hs.2
+    rw [ha] at this
+    simpa using this
+
+open CK in
+/-- COMPLETE (anywhere): a value of the root or of a type that violates one of its own rules makes `Check` fail -/
+theorem C04_checker_complete_any (o : RulesF.Oracles) (s : Schema) (x : Occ) (hx : x ∈ s.occs)
+    (hl : x.hd.info.nk = .lit → x.hd.info.lex.ty = .litEnd) (hv : violates o s.env x.hd = true) :
+    checkSchema o s ≠ .ok :=
+  CK.checker_complete_any o s x hx hl hv
+
+open CK in
+/-- … in particular inside ANY type of the table, wherever the visiting order (`Schema.visit`) puts it -/
+theorem C04_checker_complete_type (o : RulesF.Oracles) (s : Schema) (t : TypeEntry) (ht : t ∈ s.types) (h : Hd)
+    (hh : h ∈ preorder t.root) (hl : h.info.nk = .lit → h.info.lex.ty = .litEnd) (hv : violates o s.env h = true) :
+    checkSchema o s ≠ .ok :=
+  CK.checker_complete_any o s ⟨h, t.begin, some t.name⟩ (CK.mem_occs_of_type s t ht h hh) hl hv
+
+open CK in
+/-- COMPLETE + FIRST, with the reported position: when the structural checks of the root's nodes pass (rule / kind
+compatibility, references) and the offsets of the nodes increase in source order (they do in every text:
+`C04_offsets_increase`), a value of the root that violates one of its own rules — a bound, a length, a pattern, enum
+membership, a format, const, the kind, an item count — makes the checker return `err code file pos` where `pos` is the start
+offset of a value that violates one of its own rules, namely the FIRST such value in the text -/
+theorem C04_checker_complete (o : RulesF.Oracles) (s : Schema) (r : Node) (hr : s.root = some r)
+    (hlit : ∀ h ∈ preorder r, h.info.nk = .lit → h.info.lex.ty = .litEnd)
+    (hst : ∀ h ∈ preorder r, structOK s.env h = true)
+    (hsorted : ((preorder r).map fun h => h.info.lex.begin).Pairwise (· < ·))
+    (hv : ∃ h ∈ preorder r, violates o s.env h = true) :
+    ∃ h₀ ∈ preorder r, violates o s.env h₀ = true ∧
+      (∀ h ∈ preorder r, violates o s.env h = true → h₀.info.lex.begin ≤ h.info.lex.begin) ∧
+      ∃ code, checkSchema o s = .err code h₀.info.lex.file h₀.info.lex.begin none :=
+  CK.checker_complete_offset o s r hr hlit hst hsorted hv
+
+open CK in
+/-- without the structural hypothesis: some node of the root offends ⇒ the reported error is the own error of the offending
+node with the smallest offset -/
+theorem C04_checker_first_offset (o : RulesF.Oracles) (s : Schema) (r : Node) (hr : s.root = some r)
+    (hsorted : ((preorder r).map fun h => h.info.lex.begin).Pairwise (· < ·))
+    (hv : ∃ h ∈ preorder r, nodeErr o s.env h ≠ none) :
+    ∃ h₀ ∈ preorder r, ∃ p, nodeErr o s.env h₀ = some p ∧ checkSchema o s = panicRes none 0 p ∧
+      ∀ h ∈ preorder r, nodeErr o s.env h ≠ none → h₀.info.lex.begin ≤ h.info.lex.begin :=
+  CK.checker_first_offset o s r hr hsorted hv
+
+open CK in
+/-- in a text — whatever the gaps (blanks, line breaks, commas, keys, annotations) between the values — the offsets of the
+nodes strictly increase in pre-order: the hypothesis `hsorted` above -/
+theorem C04_offsets_increase (t : LT) (o : Nat) :
+    ((preorder (t.place o)).map fun h => h.info.lex.begin).Pairwise (· < ·) :=
+  CK.place_sorted t o
+
+open CK in
+/-- NO CRASH: the recursions of the node-local checks through the type table (`buildList`, `collectAllowedJsonTypes`,
+`actualRootTypeVisiting`) never exhaust the model's fuel `|table| + 2`, for every table, cyclic ones included;
+`checkArrayItems` has no visited set in the code: it is total when the arrays of the table carry no types list -/
+theorem C04_checker_no_crash (o : RulesF.Oracles) (env : Env) (hT : ArraysFlat env) (h : Hd) (w : String) :
+    nodeErr o env h ≠ some (.crash w) :=
+  CK.nodeErr_no_crash o env hT h w
+
+open CK in
+/-- LITERAL = C02: `ValidateLiteralValue` as the checker runs it (with the error it raises) accepts exactly when the C02
+model `RulesF.litOKFull` accepts the token on the rule list read off the constraint map: "violates one of its rules" is
+the C02 meaning of the rules (`C02_accept_iff_full`) -/
+theorem C04_literal_is_C02 (o : RulesF.Oracles) (k : Rules.Kind) (cs : List Cn) (tok : RulesF.Bytes)
+    (hn : NullableTrue cs) (hc : ConstUnique cs) :
+    validateLiteralValue o (jtOfKind k) cs tok = none ↔ RulesF.litOKFull o (specOf k cs) tok = true :=
+  CK.validate_iff_litOKFull o k cs tok hn hc
+
+open CK in
+/-- … and for a literal node without a types list "some alternative admits the token" (the `litOK` of `C04_checker_sound`, the
+negation of `violates`) IS that C02 predicate on the node's own rule list -/
+theorem C04_literal_accepts_is_C02 (o : RulesF.Oracles) (env : Env) (i : Info) (k : Rules.Kind) (tok : RulesF.Bytes)
+    (ht : typesList? i.cs = none) (hk : i.nk = .lit) (hj : i.jt = jtOfKind k)
+    (hn : NullableTrue i.cs) (hc : ConstUnique i.cs) :
+    literalAccepts o env i tok = RulesF.litOKFull o (specOf k i.cs) tok :=
+  CK.literalAccepts_plain o env i k tok ht hk hj hn hc
+
+/-! ### non-vacuity: one schema through all the statements
+
+`[ 5, // {min: 1, max: 3}` / `"ab", // {maxLength: 1}` / `[] // {minItems: 0}` / `7 // {type: "@t"}` `]` with
+`@t = 9 // {min: 8}`; offsets 0, 2, 24, 50, 70. -/
+namespace Ex
+open CK
+
+def o0 : RulesF.Oracles := ⟨fun _ _ => true, fun _ => true, fun _ => true, fun _ => true⟩
+
+def lit (jt : JT) (off : Nat) (tok : RulesF.Bytes) (cs : List Cn) : Node :=
+  .mk { nk := .lit, jt := jt, lex := ⟨.litEnd, 0, off, tok⟩, cs := cs } []
+
+def tT : TypeEntry := ⟨[64, 116], 1, 0, [102, 49], .mk { nk := .lit, jt := .integer, lex := ⟨.litEnd, 1, 0, [57]⟩, cs := [.min [56] false] } []⟩
+
+/-- two violated rules (`5` against `max: 3` at offset 2, `"ab"` against `maxLength: 1` at offset 24) and a reference that
+fails (`7` against `min: 8` of `@t` at offset 70) -/
+def bad : Schema :=
+  ⟨some (.mk { nk := .arr, jt := .array, lex := ⟨.other, 0, 0, []⟩, cs := [] }
+    [lit .integer 2 [53] [.min [49] false, .max [51] false],
+     lit .string 24 [34, 97, 98, 34] [.maxLength 1],
+     .mk { nk := .arr, jt := .array, lex := ⟨.other, 0, 50, []⟩, cs := [.minItems 0] } [],
+     lit .integer 70 [55] [.typesList [[64, 116]]]]), [tT]⟩
+
+/-- the same with the rules obeyed -/
+def good : Schema :=
+  ⟨some (.mk { nk := .arr, jt := .array, lex := ⟨.other, 0, 0, []⟩, cs := [] }
+    [lit .integer 2 [53] [.min [49] false, .max [55] false],
+     lit .string 24 [34, 97, 98, 34] [.maxLength 2],
+     .mk { nk := .arr, jt := .array, lex := ⟨.other, 0, 50, []⟩, cs := [.minItems 0] } [],
+     lit .integer 70 [57] [.typesList [[64, 116]]]]), [tT]⟩
+
+/-- the first of the three violations is reported, at its offset -/
+example : checkSchema o0 bad = .err 602 0 2 none := by decide +kernel
+example : checkSchema o0 good = .ok := by decide +kernel
+/-- hypotheses of `C04_checker_sound` on `good` -/
+example : good.root.isSome = true ∧ (good.root.map plain) = some true ∧ (good.root.map fun r => VP.nodupAll (toVP r)) = some true := by
+  decide +kernel
+/-- hypotheses of `C04_checker_complete` on `bad`: literals are literal-end lexemes, structural checks pass, offsets increase,
+three nodes violate -/
+example : (bad.root.map fun r => (preorder r).all fun h => structOK bad.env h && (h.info.nk != .lit || h.info.lex.ty == .litEnd)) = some true
+    ∧ (bad.root.map fun r => ((preorder r).filter (violates o0 bad.env)).map fun h => h.info.lex.begin) = some [2, 24, 70] := by
+  decide +kernel
+/-- an item-count violation is reported at the `[` : `[1, 2] // {maxItems: 1}` -/
+example : checkSchema o0 ⟨some (.mk { nk := .arr, jt := .array, lex := ⟨.other, 0, 4, []⟩, cs := [.maxItems 1] }
+    [lit .integer 5 [49] [], lit .integer 8 [50] []]), []⟩ = .err 609 0 4 none := by decide +kernel
+/-- two offending unnamed types (or-shortcut nodes of the files "f2" and "f1", both naming an undefined type): the one of "f1"
+is reported, whatever their order in the table and whatever their names (addresses) -/
+example : checkSchema o0 ⟨none,
+    [⟨[35, 49], 2, 0, [102, 50], .mk { nk := .mixedValue, jt := .mixed, lex := ⟨.other, 2, 5, []⟩, cs := [.typesList [[64, 120]]] } []⟩,
+     ⟨[35, 50], 1, 0, [102, 49], .mk { nk := .mixedValue, jt := .mixed, lex := ⟨.other, 1, 9, []⟩, cs := [.typesList [[64, 121]]] } []⟩]⟩
+    = .err 1302 1 9 (some [35, 50]) := by decide +kernel
+/-- an error inside a type names the type and its file: `@t = 9 // {min: 10}` -/
+example : checkSchema o0 ⟨some (lit .integer 0 [55] []),
+    [⟨[64, 116], 1, 0, [102, 49], .mk { nk := .lit, jt := .integer, lex := ⟨.litEnd, 1, 3, [57]⟩, cs := [.min [49, 48] false] } []⟩]⟩
+    = .err 602 1 3 (some [64, 116]) := by decide +kernel
+/-- `ArraysFlat` holds for the table of `bad` (hypothesis of `C04_checker_no_crash`) -/
+example : ArraysFlat bad.env := by
+  intro n t hl hk
+  have : bad.env.types = [([64, 116], tT.root.hd)] := rfl
+  unfold Env.lookup at hl
+  rw [this] at hl
+  simp only [List.find?] at hl
+  split at hl
+  · simp only [Option.map_some, Option.some.injEq] at hl
+    subst hl
+    simp [tT, Node.hd] at hk
+  · simp at hl
+/-- `C04_literal_is_C02`: the hypotheses hold for `[min 1, max 3]` and the two sides reject `5` -/
+example : NullableTrue [Cn.min [49] false, .max [51] false] ∧ ConstUnique [Cn.min [49] false, .max [51] false]
+    ∧ validateLiteralValue o0 (jtOfKind .i) [Cn.min [49] false, .max [51] false] [53] = some (.raw 602)
+    ∧ RulesF.litOKFull o0 (specOf .i [Cn.min [49] false, .max [51] false]) [53] = false := by
+  refine ⟨?_, ?_, by decide +kernel, by decide +kernel⟩
+  · intro b hb; simp at hb
+  · intro v hv; simp at hv
+/-- a layout: `[ 5 , "ab" ]` with gaps 1 and 2 -/
+example : ((preorder ((LT.branch { nk := .arr, jt := .array, lex := ⟨.other, 0, 0, []⟩, cs := [] }
+    (.cons 1 (.leaf { nk := .lit, jt := .integer, lex := ⟨.litEnd, 0, 0, [53]⟩, cs := [] } 0)
+      (.cons 2 (.leaf { nk := .lit, jt := .string, lex := ⟨.litEnd, 0, 0, [34, 97, 98, 34]⟩, cs := [] } 3) .nil)) 2).place 10)).map
+      fun h => h.info.lex.begin) = [10, 12, 15] := by decide +kernel
+end Ex
 
 end Props.C04
